@@ -327,10 +327,11 @@ class Check:
             coverage["exhaustive"] = self.exhaustive
         coverage.update(self.extra)
 
-        if self.harness_errors:
-            verdict, rc = "harness-error", 3
-        elif self.violations:
+        if self.violations:
+            # a witnessed violation stands whatever else went wrong in the harness
             verdict, rc = "violated", 1
+        elif self.harness_errors:
+            verdict, rc = "harness-error", 3
         elif self.inconclusive or self.evaluations < 1 or distinct_n < 2:
             verdict, rc = "inconclusive", 2
             if not self.inconclusive:
